@@ -75,13 +75,14 @@ def e_to_gfa1(pos):
         if r1 == "sfx" and r2 == "pfx":
             return ("L", [n1, o1, n2, o2, aln])
         if r2 == "sfx" and r1 == "pfx":
-            return ("L", [n2, o2, n1, o1, cigar_complement(aln)])
+            # sid2 is the 'from' side: reference and query change roles, the reading direction does not
+            return ("L", [n2, o2, n1, o1, gtext.cigar_swap(aln)])
         return None
     # containment: the wholly aligned side is the contained ('to') one
     if r2 == "contained":
         return ("C", [n1, o1, n2, o2, b1.rstrip("$"), aln])
     if r1 == "contained":
-        return ("C", [n2, o2, n1, o1, b2.rstrip("$"), cigar_complement(aln)])
+        return ("C", [n2, o2, n1, o1, b2.rstrip("$"), gtext.cigar_swap(aln)])
     return None
 
 
